@@ -7,6 +7,7 @@ open EpgVerif.Props.C20
 #print axioms zeroShift_iff
 #print axioms badNcomp_iff
 #print axioms noGrid_iff
+#print axioms noGrid_sm_precedence
 #print axioms badStatesShape_iff
 #print axioms badSymmetry_iff
 #print axioms badScalarShape_iff
